@@ -17,6 +17,9 @@ type c13Case struct {
 	QOrder   []int    `json:"q_order"`   // order in which the query requests are answered
 	Intrude  string   `json:"intrude"`   // none subscribe queryevent
 	Mutation string   `json:"mutation"`  // prepend remove0 append
+	// HoldLast withholds the get response of the last answered query until
+	// the query event's round is over (the query is "still requested" then).
+	HoldLast bool `json:"hold_last"`
 }
 
 func perms(n int) [][]int {
@@ -128,7 +131,10 @@ func runC13Case(c *RunCtx, cs c13Case) {
 		s.Quiesce()
 		answerAccess()
 		s.Quiesce()
-		for _, i := range cs.GetOrder {
+		for k, i := range cs.GetOrder {
+			if cs.HoldLast && k == len(cs.GetOrder)-1 {
+				break
+			}
 			if r := getFor(cs.Raw[i]); r != nil {
 				answerGet(r)
 				s.Quiesce()
@@ -146,12 +152,22 @@ func runC13Case(c *RunCtx, cs c13Case) {
 			s.Quiesce()
 		}
 	}
-	s.Settle()
+	held := ""
+	if cs.HoldLast {
+		held = cs.Raw[cs.GetOrder[len(cs.GetOrder)-1]]
+		s.Quiesce()
+	} else {
+		s.Settle()
+	}
 	if !s.ok {
 		c.Inconclusive("C13: " + s.res.Inconclusive)
 		return
 	}
 	norms := distinctNorm(cs.Raw)
+	if cs.HoldLast {
+		c13HoldLast(c, s, cs, held, fail, answerGet, getFor)
+		return
+	}
 	// one cache entry per distinct normalised query
 	for _, e := range g.Svc.VerifCache().VerifSnapshot() {
 		if e.Name != "q.items" {
@@ -381,6 +397,21 @@ func runC13Case(c *RunCtx, cs c13Case) {
 }
 
 func c13Enumerate(c *RunCtx) {
+	// query event while one query is still being requested
+	hidx := 0
+	for _, raw := range [][]string{{"w=2", "w=4"}, {"w=2&a", "w=4"}, {"w=2", "w=4&b"}, {"w=2", "w=3", "w=4"}, {"w=2&a", "w=2&b", "w=4"}} {
+		for _, gorder := range perms(len(raw)) {
+			hidx++
+			if !c.Mine(hidx) {
+				continue
+			}
+			cs := c13Case{Raw: raw, InFlight: true, GetOrder: gorder, HoldLast: true, Outcomes: []string{"events", "events", "events"}}
+			c.WAL("C13 case %+v", cs)
+			runC13Case(c, cs)
+			c.Eval(1)
+			c.Rep.DistinctN++
+		}
+	}
 	sets := [][]string{{"w=2"}, {"w=2", "w=4"}, {"w=2&a", "w=2&b"}, {"w=2&a", "w=2"}, {"w=2", "w=2&a"}, {"w=2&a", "w=2&b", "w=4"}}
 	outcomes := []string{"events", "collection", "error", "notfound", "timeout"}
 	idx := 0
@@ -424,4 +455,83 @@ func c13Enumerate(c *RunCtx) {
 			}
 		}
 	}
+}
+
+// c13HoldLast: a query event arrives while one query of the resource is
+// loaded and another one still has its get outstanding. Exactly the loaded
+// queries are asked; the lock must be released again so that the outstanding
+// get response, later events and new requests are processed.
+func c13HoldLast(c *RunCtx, s *Script, cs c13Case, held string, fail func(sig, format string, a ...interface{}), answerGet func(*BusReq), getFor func(string) *BusReq) {
+	g := s.h.g
+	w := s.World()
+	var loaded []string
+	for _, r := range cs.Raw {
+		if r != held {
+			loaded = append(loaded, r)
+		}
+	}
+	wantNorms := distinctNorm(loaded)
+	// the held query may alias a loaded one (then its get is still outstanding but the entry is loaded)
+	subject := w.MutateQuery("q.items", func(d []Val) []Val { return append([]Val{P("new")}, d...) })
+	s.Quiesce()
+	var got []string
+	var round []*BusReq
+	for _, r := range g.Bus.Outstanding() {
+		if r.Subject == subject {
+			var p struct {
+				Query string `json:"query"`
+			}
+			json.Unmarshal(r.Payload, &p)
+			got = append(got, p.Query)
+			round = append(round, r)
+		}
+	}
+	sort.Strings(got)
+	if strings.Join(got, "|") != strings.Join(wantNorms, "|") {
+		// a still requested entry may or may not be asked (harmless either way)
+		all := distinctNorm(cs.Raw)
+		if strings.Join(got, "|") != strings.Join(all, "|") {
+			fail("queryRequests", "query requests for %v while queries %v are loaded and %q is still requested", got, wantNorms, held)
+		}
+	}
+	for _, r := range round {
+		subj, payload := r.Subject, r.Payload
+		g.Bus.Reply(r, nil, func() []byte { return w.QueryRequestAnswer(subj, payload, "events") })
+	}
+	s.Quiesce()
+	// now the withheld get response
+	if r := getFor(held); r != nil {
+		answerGet(r)
+	} else {
+		fail("heldGetMissing", "the get request for %q is not outstanding any more", held)
+	}
+	s.Settle()
+	rc := s.RC(s.h.g.clientsSnapshot()[0])
+	for _, raw := range cs.Raw {
+		if rc.Direct["q.items?"+raw] != 1 {
+			fail("notResumed", "subscription q.items?%s was never answered after the query event round (processing of the resource did not resume)", raw)
+		}
+	}
+	probe := w.MutateQuery("q.items", func(d []Val) []Val { return append(d, P("probe")) })
+	s.Quiesce()
+	seen := 0
+	for _, r := range g.Bus.Outstanding() {
+		if r.Subject == probe {
+			seen++
+		}
+	}
+	if seen != len(distinctNorm(cs.Raw)) {
+		fail("probeNotHandled", "a query event after the round produced %d query requests, %d loaded queries are cached", seen, len(distinctNorm(cs.Raw)))
+	}
+	s.Settle()
+	res := s.Finish()
+	for _, v := range res.Viol {
+		prop, sig := v.Prop, v.Sig
+		if strings.HasPrefix(v.RID, "q.items") && (prop == "C01" || prop == "C02" || prop == "C03" || prop == "C09") {
+			sig = prop + "." + sig
+			prop = "C13"
+		}
+		c.Violation(VReport{Prop: prop, Sig: sig, RID: v.RID, Msg: fmt.Sprintf("%+v: %s", cs, v.Msg)})
+	}
+	c.Counters(res.Counters)
 }
